@@ -42,10 +42,24 @@ for mpath in sorted(glob.glob(os.path.join(root, 'benign', '*', 'meta.json'))):
         v += ' signatures: ' + '; '.join(str(x) for x in m['concrete_violation_signatures'][:3])
     rows.append('| %s | %s | %s |' % (name, title.replace('|', '/'), v.replace('|', '/')))
 benign = '\n'.join(rows)
+sm = [json.load(open(x)) for x in sorted(glob.glob(os.path.join(root, 'seeded', '*', 'meta.json')))]
+n_all = len(sm)
+n_det = sum(1 for m in sm if m.get('detected'))
+n_conc = sum(1 for m in sm if m.get('detected') and not ((m.get('check_first_violations') or []) and all(
+    v.rstrip().endswith('no-failing-input-found') for v in m.get('check_first_violations'))
+    and m.get('check_violation_lines', 0) <= len(m.get('check_first_violations') or [])))
+bm = [json.load(open(x)) for x in sorted(glob.glob(os.path.join(root, 'benign', '*', 'meta.json')))]
+seeded_summary = ('State of the corpora at the last evaluation recorded in the `meta.json` files: **%d seeded changes** kept, **%d caught** by '
+                  'the check of their own property (%d of them with at least one concrete failing input in the replay, the others '
+                  'through a broken proof obligation / translator item for which the search found no input); **%d property-preserving '
+                  'changes**: %d quiet, %d obligation-only, %d false alarms.' % (
+                      n_all, n_det, n_conc, len(bm), sum(1 for m in bm if m.get('verdict') == 'quiet'),
+                      sum(1 for m in bm if str(m.get('verdict', '')).startswith('obligation')),
+                      sum(1 for m in bm if m.get('verdict') == 'FALSE ALARM')))
 
 na = json.load(open(os.path.join(root, 'MANIFEST.json'))).get('not_applicable', [])
 out = part1.rstrip('\n') + '\n' + part2
-out = out.replace('@@STATUS_TABLE@@', status.strip()).replace('@@FINDINGS_TABLE@@', findings).replace('@@SEEDED_TABLE@@', seeded.strip()).replace('@@BENIGN_TABLE@@', benign)
+out = out.replace('@@STATUS_TABLE@@', status.strip()).replace('@@FINDINGS_TABLE@@', findings).replace('@@SEEDED_TABLE@@', seeded.strip()).replace('@@BENIGN_TABLE@@', benign).replace('@@SEEDED_SUMMARY@@', seeded_summary)
 for f in sorted(glob.glob(os.path.join(root, 'design.d', 'C[0-9][0-9].md'))):
     txt = open(f).read().strip('\n')
     # demote headings by two levels so that each note becomes a subsection of section 16
